@@ -3,13 +3,25 @@
 (* that address mapped resources or their would-be children (the failing rest is covered by the *)
 (* exhaustive product).  The history is printed as JSON when it reaches HistLen.                *)
 EXTENDS DavTreeMC
-CONSTANTS HistLen, CondMix
+CONSTANTS HistLen, CondMix, ClientMix
 VARIABLE hist
 \* paths worth addressing in state t: mapped ones and the would-be children of collections
 NearPaths(t) == {Root} \cup DOMAIN t
                 \cup {Append(q, n) : q \in {x \in DOMAIN t : t[x].k = "c" /\ Len(x) < MaxDepth}, n \in Names}
 CondFor(k) == IF k = "f" THEN {"unset", "unset", "star", "cur", "cur", "stale", "other", "bad"} ELSE {"unset", "unset", "star", "other", "bad"}
+\* ClientMix: only what webdav.Client can express -- Create, RemoveAll, Mkdir, Copy (Depth 0 | infinity, Overwrite T | F), Move
+\* (Overwrite T | F), Open, Stat (PROPFIND Depth 0), ReadDir (Depth 1 | infinity); the recorder performs the client call and
+\* the judge compares the request actually sent with this one (C05)
+ClientReq(t) ==
+  LET m == RandomElement({"PUT", "PUT", "PUT", "MKCOL", "MKCOL", "DELETE", "COPY", "COPY", "MOVE", "MOVE", "GET", "GET", "PROPFIND", "PROPFIND", "PROPFIND"})
+      p == RandomElement(NearPaths(t))
+      b == [Base(m, p) EXCEPT !.c = IF m = "PUT" THEN RandomElement(Contents) ELSE ""]
+  IN CASE m = "COPY" -> [b EXCEPT !.dform = "path", !.dp = RandomElement(NearPaths(t)), !.depth = RandomElement({"0", "infinity"}), !.ow = RandomElement({"T", "F"})]
+       [] m = "MOVE" -> [b EXCEPT !.dform = "path", !.dp = RandomElement(NearPaths(t)), !.ow = RandomElement({"T", "F"})]
+       [] m = "PROPFIND" -> [b EXCEPT !.depth = RandomElement({"0", "1", "infinity"}), !.pform = "fileinfo"]
+       [] OTHER -> b
 GenReq(t) ==
+  IF ClientMix THEN ClientReq(t) ELSE
   LET m == RandomElement(IF CondMix THEN {"PUT", "PUT", "PUT", "DELETE", "DELETE", "MKCOL", "COPY", "MOVE", "GET", "GET", "HEAD", "HEAD", "PROPFIND", "PROPFIND"}
                          ELSE {"PUT", "PUT", "MKCOL", "MKCOL", "DELETE", "COPY", "COPY", "MOVE", "MOVE", "GET", "HEAD", "OPTIONS", "PROPFIND"})
       p == RandomElement(NearPaths(t))
